@@ -1,22 +1,24 @@
 import TinsModel.RadioTap.LemmasWriter
-/- Helper lemmas for C11, part 3: the parser walking a canonical payload. -/
+import TinsModel.RadioTap.LemmasLayout
+/- Helper lemmas for C11, part 3: the parser walking the fields of the first present word of a well-aligned header
+   `layL M F fs` (`F` = the present-word chain and the foreign bytes; `F = Frame.nil` is the canonical payload). -/
 namespace Tins.RT
 
-/-- parser positioned on the field with bit `b` that follows the fields `done` of the canonical payload of `fs` -/
-def stAt (M : Meta) (fs done : List (Nat × Bytes)) (b : Nat) : Parser :=
-  { buf := canonL M fs, null := false,
-    ptr := encEnd M done 8 + padTo (M.align b) (encEnd M done 8) - 4,
-    bit := b, flags := presentWord fs / 2 ^ b, ns := 0 }
+/-- parser positioned on the field with bit `b` that follows the fields `done` of the header `layL M F fs` -/
+def stAt (M : Meta) (F : Frame) (fs done : List (Nat × Bytes)) (b : Nat) : Parser :=
+  { buf := layL M F fs, null := false,
+    ptr := encEnd M done F.base + padTo (M.align b) (encEnd M done F.base) - 4,
+    bit := b, flags := (presentWord fs ||| F.hb) / 2 ^ b, ns := 0 }
 
-/-- parser that has run out of fields on the canonical payload of `fs` -/
-def Ended (M : Meta) (fs : List (Nat × Bytes)) (p : Parser) : Prop :=
-  p.buf = canonL M fs ∧ p.null = false ∧ p.ns = 0 ∧ p.bit = M.max
+/-- parser that has run out of fields on the header `layL M F fs` -/
+def Ended (M : Meta) (F : Frame) (fs : List (Nat × Bytes)) (p : Parser) : Prop :=
+  p.buf = layL M F fs ∧ p.null = false ∧ p.bit = M.max
 
 /-- parser state after the fields `done`, with `rest` still ahead -/
-def PAt (M : Meta) (fs done rest : List (Nat × Bytes)) (p : Parser) : Prop :=
+def PAt (M : Meta) (F : Frame) (fs done rest : List (Nat × Bytes)) (p : Parser) : Prop :=
   match rest with
-  | [] => Ended M fs p
-  | (b, _) :: _ => p = stAt M fs done b
+  | [] => Ended M F fs p
+  | (b, _) :: _ => p = stAt M F fs done b
 
 theorem skipUnset_spec (W max : Nat) :
     ∀ (fuel bit t : Nat), bit ≤ t → t ≤ max → (∀ c, bit ≤ c → c < t → W.testBit c = false) →
@@ -89,175 +91,192 @@ theorem canonL_length (M : Meta) (fs : List (Nat × Bytes)) : (canonL M fs).leng
   simp [canonL, le32, encEnd]; omega
 
 theorem presentWord_small {M : Meta} (hwf : M.wf) {fs : List (Nat × Bytes)} (hsz : Sized M fs) :
-    presentWord fs < 536870912 := by
-  have h1 : presentWord fs < 2 ^ M.max := presentWord_lt fs M.max (fun f hf => (hsz f hf).1)
-  have h2 : 2 ^ M.max ≤ 2 ^ 29 := Nat.pow_le_pow_right (by omega) hwf.1
-  have : (2 : Nat) ^ 29 = 536870912 := by decide
-  omega
+    presentWord fs < 536870912 := presentWord_lt29 hwf hsz
 
-theorem read32_canonL {M : Meta} (hwf : M.wf) {fs : List (Nat × Bytes)} (hsz : Sized M fs) :
-    read32 (canonL M fs) 0 = presentWord fs := by
-  have := presentWord_small hwf hsz
-  unfold canonL
-  rw [read32_le32]
-  omega
+/-! ### the parser on a well-aligned header -/
 
-theorem ext_canonL {M : Meta} (hwf : M.wf) {fs : List (Nat × Bytes)} (hsz : Sized M fs) :
-    extSet (read32 (canonL M fs) (4 * 0)) = false := by
-  have := presentWord_small hwf hsz
-  simp only [Nat.mul_zero, read32_canonL hwf hsz, extSet]
-  have : presentWord fs / 2147483648 = 0 := by omega
-  simp [this]
-
-/-! ### the parser on a canonical payload -/
-
-theorem hasFields_stAt {M : Meta} (hwf : M.wf) {fs done todo : List (Nat × Bytes)} {b : Nat} {v : Bytes}
-    (hfs : fs = done ++ (b, v) :: todo) (hsz : Sized M fs) : hasFields M (stAt M fs done b) = true := by
+theorem hasFields_stAt {M : Meta} (hwf : M.wf) (F : Frame) {fs done todo : List (Nat × Bytes)} {b : Nat} {v : Bytes}
+    (hfs : fs = done ++ (b, v) :: todo) (hsz : Sized M fs) : hasFields M (stAt M F fs done b) = true := by
   obtain ⟨hb, hv⟩ := sized_mem hsz hfs
   have hpos := (hwf.2 b hb).1
-  have hlen := canonL_length M fs
-  have hend : encEnd M fs 8 = encEnd M todo (encEnd M done 8 + padTo (M.align b) (encEnd M done 8) + v.length) := by
+  have hlen := layL_length' M F fs
+  have hend : encEnd M fs F.base = encEnd M todo (encEnd M done F.base + padTo (M.align b) (encEnd M done F.base) + v.length) := by
     rw [hfs, encEnd_append, encEnd_cons]
-  have hle := le_encEnd M todo (encEnd M done 8 + padTo (M.align b) (encEnd M done 8) + v.length)
-  have h8 := le_encEnd M done 8
-  have h1 : (stAt M fs done b).bit ≠ M.max := by simp only [stAt]; omega
-  have h2 : (stAt M fs done b).ptr < (stAt M fs done b).buf.length := by simp only [stAt]; omega
+  have hle := le_encEnd M todo (encEnd M done F.base + padTo (M.align b) (encEnd M done F.base) + v.length)
+  have h8 := le_encEnd M done F.base
+  have hbase : 8 ≤ F.base := by simp [Frame.base]
+  have h1 : (stAt M F fs done b).bit ≠ M.max := by simp only [stAt]; omega
+  have h2 : (stAt M F fs done b).ptr < (stAt M F fs done b).buf.length := by simp only [stAt]; omega
   simp [hasFields, h1, h2]
 
-theorem hasFields_ended {M : Meta} {fs : List (Nat × Bytes)} {p : Parser} (h : Ended M fs p) : hasFields M p = false := by
-  simp [hasFields, h.2.2.2]
+theorem hasFields_ended {M : Meta} {F : Frame} {fs : List (Nat × Bytes)} {p : Parser} (h : Ended M F fs p) :
+    hasFields M p = false := by
+  simp [hasFields, h.2.2]
 
 /-- `advance_to_next_field` from a state whose flags are the present word shifted by `bit`, when the next set
     bit is `t` -/
-theorem advanceToNextField_to (M : Meta) (B : Bytes) (W ptr bit t : Nat) (hbt : bit ≤ t) (ht : t < M.max)
+theorem advanceToNextField_to (M : Meta) (B : Bytes) (W ptr bit t ns : Nat) (hbt : bit ≤ t) (ht : t < M.max)
     (hclear : ∀ c, bit ≤ c → c < t → W.testBit c = false) (hset : W.testBit t = true) :
-    advanceToNextField M { buf := B, null := false, ptr := ptr, bit := bit, flags := W / 2 ^ bit, ns := 0 }
-      = ({ buf := B, null := false, ptr := alignBuffer ptr (M.align t), bit := t, flags := W / 2 ^ t, ns := 0 }, true) := by
+    advanceToNextField M { buf := B, null := false, ptr := ptr, bit := bit, flags := W / 2 ^ bit, ns := ns }
+      = ({ buf := B, null := false, ptr := alignBuffer ptr (M.align t), bit := t, flags := W / 2 ^ t, ns := ns }, true) := by
   unfold advanceToNextField
   simp only
   rw [skipUnset_spec W M.max (M.max + 1) bit t hbt (by omega) hclear (fun _ => hset) (by omega)]
   simp [ht]
 
-theorem advanceToNextField_end (M : Meta) (B : Bytes) (W ptr bit : Nat) (hb : bit ≤ M.max)
+theorem advanceToNextField_end (M : Meta) (B : Bytes) (W ptr bit ns : Nat) (hb : bit ≤ M.max)
     (hclear : ∀ c, bit ≤ c → c < M.max → W.testBit c = false) :
-    advanceToNextField M { buf := B, null := false, ptr := ptr, bit := bit, flags := W / 2 ^ bit, ns := 0 }
-      = ({ buf := B, null := false, ptr := ptr, bit := M.max, flags := W / 2 ^ M.max, ns := 0 }, false) := by
+    advanceToNextField M { buf := B, null := false, ptr := ptr, bit := bit, flags := W / 2 ^ bit, ns := ns }
+      = ({ buf := B, null := false, ptr := ptr, bit := M.max, flags := W / 2 ^ M.max, ns := ns }, false) := by
   unfold advanceToNextField
   simp only
   rw [skipUnset_spec W M.max (M.max + 1) bit M.max hb (Nat.le_refl _) hclear (fun h => absurd h (Nat.lt_irrefl _)) (by omega)]
   simp
 
-theorem mk_nonempty {M : Meta} (hwf : M.wf) {fs todo : List (Nat × Bytes)} {b : Nat} {v : Bytes}
-    (hfs : fs = (b, v) :: todo) (hso : Sorted fs) (hsz : Sized M fs) :
-    Parser.mk' M (canonL M fs) = .ok (stAt M fs [] b) := by
-  have hfs' : fs = [] ++ (b, v) :: todo := by simpa using hfs
-  obtain ⟨hb, hv⟩ := sized_mem hsz hfs'
-  have hal := (hwf.2 b hb).2
-  have hlen := canonL_length M fs
-  have h8 := le_encEnd M fs 8
-  have hne : (canonL M fs).isEmpty = false := by
-    cases h : canonL M fs with
-    | nil => rw [h] at hlen; simp at hlen; omega
-    | cons _ _ => rfl
-  have hfos : findOptionsStart ((canonL M fs).length / 4 + 1) (canonL M fs) (canonL M fs).length 0 = .ok 4 := by
+/-- `find_options_start` on a validated chain -/
+theorem findOptionsStart_chain (buf : Bytes) (k : Nat) (hc : Chain buf k) : ∀ (fuel i total : Nat), i ≤ k →
+    total + 4 * i = buf.length → k - i ≤ fuel → findOptionsStart (fuel + 1) buf total i = .ok (4 * k + 4) := by
+  intro fuel
+  induction fuel with
+  | zero =>
+    intro i total hi _ hf
+    have : i = k := by omega
+    subst this
+    simp [findOptionsStart, hc.last]
+  | succ fuel ih =>
+    intro i total hi ht hf
     unfold findOptionsStart
-    simp [ext_canonL hwf hsz]
+    by_cases hik : i = k
+    · subst hik
+      simp [hc.last]
+    · have hinb := hc.inb
+      have h4 : ¬ (total - 4 < 4) := by omega
+      simp only [hc.exts i (by omega), if_true, h4, if_false]
+      exact ih (i + 1) (total - 4) (by omega) (by omega) (by omega)
+
+theorem layL_nonempty (M : Meta) (F : Frame) (fs : List (Nat × Bytes)) : (layL M F fs).isEmpty = false := by
+  simp [layL, le32]
+
+/-- the fields of the first present word are exhausted and the last present word announces no field: the namespace
+    switch of `advance_field()` ends the walk -/
+theorem nextNamespaceField_inert {M : Meta} (hwf : M.wf) {F : Frame} (hF : F.ok M) (hin : F.inert M)
+    {fs : List (Nat × Bytes)} (hsz : Sized M fs) (ptr flags : Nat) :
+    (nextNamespaceField M { buf := layL M F fs, null := false, ptr := ptr, bit := M.max, flags := flags, ns := 0 }).2 = false ∧
+    Ended M F fs (nextNamespaceField M { buf := layL M F fs, null := false, ptr := ptr, bit := M.max, flags := flags, ns := 0 }).1 := by
+  have hc := chain_layL hwf hF hsz
+  have hwalk : nsWalk ((layL M F fs).length / 4 + 1) (layL M F fs) 0 = F.k :=
+    nsWalk_spec _ _ hc _ _ (Nat.zero_le _) (by have := hc.inb; omega)
+  unfold nextNamespaceField advanceToNextNamespace
+  simp only [hwalk]
+  by_cases hk : F.k = 0
+  · simp only [hk, bne_self_eq_false, Bool.not_false, if_true]
+    exact ⟨trivial, rfl, rfl, rfl⟩
+  · have hne : (F.k != 0) = true := by simp [hk]
+    simp only [hne, Bool.not_true, Bool.false_eq_true, if_false]
+    have hkpos : 0 < F.k := by omega
+    rw [read32_layL_last hF fs hkpos]
+    have hend := advanceToNextField_end M (layL M F fs) F.lastWord ptr 0 F.k (Nat.zero_le _)
+      (fun c _ hc' => hin hkpos c hc')
+    simp only [Nat.pow_zero, Nat.div_one] at hend
+    simp only [hend, Bool.not_false, if_true]
+    exact ⟨trivial, rfl, rfl, rfl⟩
+
+/-- parser construction on a well-aligned header -/
+theorem mk_layL {M : Meta} (hwf : M.wf) {F : Frame} (hF : F.ok M) {fs : List (Nat × Bytes)} (hso : Sorted fs) (hsz : Sized M fs) :
+    ∃ p, Parser.mk' M (layL M F fs) = .ok p ∧ PAt M F fs [] fs p ∧ (fs = [] → p.ptr + 4 = F.base) ∧
+      p.buf = layL M F fs ∧ p.null = false ∧ p.ns = 0 := by
+  have hc := chain_layL hwf hF hsz
+  have hw := wsb_length hF
+  have hfos : findOptionsStart ((layL M F fs).length / 4 + 1) (layL M F fs) (layL M F fs).length 0 = .ok (4 * F.k + 4) :=
+    findOptionsStart_chain _ _ hc _ 0 _ (Nat.zero_le _) (by omega) (by have := hc.inb; omega)
+  have hl4 : ¬ (layL M F fs).length < 4 := by rw [layL_length]; omega
   unfold Parser.mk'
-  have hl4 : ¬ (canonL M fs).length < 4 := by omega
-  simp only [hne, hl4, hfos, if_false, Bool.false_eq_true]
-  have hW : read32 (canonL M fs) 0 = presentWord fs / 2 ^ 0 := by simp [read32_canonL hwf hsz]
+  simp only [layL_nonempty, hl4, hfos, if_false, Bool.false_eq_true]
+  have hW : read32 (layL M F fs) 0 = (presentWord fs ||| F.hb) / 2 ^ 0 := by simp [read32_layL0 hwf hF hsz]
   rw [hW]
-  have hs' : Sorted ([] ++ (b, v) :: todo) := by rw [← hfs']; exact hso
-  rw [advanceToNextField_to M (canonL M fs) (presentWord fs) 4 0 b (Nat.zero_le _) hb]
-  · simp only [stAt, encEnd_nil, alignBuffer_eq _ _ hal, padTo_eight _ hal]
-  · intro c _ hc
-    rw [testBit_presentWord, Bool.eq_false_iff]
-    intro hany
-    rw [List.any_eq_true] at hany
-    obtain ⟨f, hf, hfc⟩ := hany
-    have hfc' : f.1 = c := by simpa using hfc
-    rw [hfs, List.mem_cons] at hf
-    rcases hf with hf | hf
-    · subst hf; simp at hfc'; omega
-    · have := (sorted_split hs').2.1 f hf; simp at this; omega
-  · rw [hfs']; exact set_at
+  cases hfs : fs with
+  | nil =>
+    rw [advanceToNextField_end M _ _ _ 0 0 (Nat.zero_le _)]
+    · refine ⟨_, rfl, ⟨rfl, rfl, rfl⟩, fun _ => ?_, rfl, rfl, rfl⟩
+      simp only [Frame.base]; omega
+    · intro c _ hcm
+      rw [W_testBit hF _ c hcm]
+      simp [testBit_presentWord]
+  | cons x todo =>
+    obtain ⟨b, v⟩ := x
+    have hfs' : fs = [] ++ (b, v) :: todo := by simpa using hfs
+    obtain ⟨hb, hv⟩ := sized_mem hsz hfs'
+    have hal := (hwf.2 b hb).2
+    have hs' : Sorted ([] ++ (b, v) :: todo) := by rw [← hfs']; exact hso
+    rw [advanceToNextField_to M _ _ _ 0 b 0 (Nat.zero_le _) hb]
+    · refine ⟨_, rfl, ?_, fun h => by simp at h, rfl, rfl, rfl⟩
+      simp only [PAt, stAt, encEnd_nil, alignBuffer_eq _ _ hal, Frame.base, hw]
+      congr 1
+      · have : 4 * F.k + 4 + 4 = 8 + 4 * F.k := by omega
+        rw [this]; omega
+    · intro c _ hcb
+      rw [W_testBit hF _ c (by omega), testBit_presentWord, Bool.eq_false_iff]
+      intro hany
+      rw [List.any_eq_true] at hany
+      obtain ⟨f, hf, hfc⟩ := hany
+      have hfc' : f.1 = c := by simpa using hfc
+      rw [List.mem_cons] at hf
+      rcases hf with hf | hf
+      · subst hf; simp at hfc'; omega
+      · have := (sorted_split hs').2.1 f hf; simp at this; omega
+    · rw [W_testBit hF _ b hb]
+      have : (b, v) :: todo = [] ++ (b, v) :: todo := rfl
+      rw [this]; exact set_at
 
-theorem mk_empty {M : Meta} (hwf : M.wf) :
-    ∃ p, Parser.mk' M (canonL M []) = .ok p ∧ Ended M [] p ∧ p.ptr = 4 := by
-  have hsz : Sized M [] := fun f hf => by simp at hf
-  have hfos : findOptionsStart ((canonL M []).length / 4 + 1) (canonL M []) (canonL M []).length 0 = .ok 4 := by
-    unfold findOptionsStart
-    simp [ext_canonL hwf hsz]
-  have hlen : (canonL M []).length = 4 := by simp [canonL, le32, enc]
-  have hne : (canonL M []).isEmpty = false := by
-    cases h : canonL M [] with
-    | nil => rw [h] at hlen; simp at hlen
-    | cons _ _ => rfl
-  unfold Parser.mk'
-  have hl4 : ¬ (canonL M []).length < 4 := by omega
-  simp only [hne, hl4, hfos, if_false, Bool.false_eq_true]
-  have hW : read32 (canonL M []) 0 = presentWord [] / 2 ^ 0 := by simp [read32_canonL hwf hsz]
-  rw [hW, advanceToNextField_end M (canonL M []) (presentWord []) 4 0 (Nat.zero_le _)]
-  · exact ⟨_, rfl, ⟨rfl, rfl, rfl, rfl⟩, rfl⟩
-  · intro c _ _
-    simp [testBit_presentWord]
-
-/-- one `advance_field` on a canonical payload moves from a field to the next one, or ends -/
-theorem advanceField_step {M : Meta} (hwf : M.wf) {fs done rest : List (Nat × Bytes)} {b : Nat} {v : Bytes}
-    (hfs : fs = done ++ (b, v) :: rest) (hso : Sorted fs) (hsz : Sized M fs) :
-    PAt M fs (done ++ [(b, v)]) rest (advanceField M (stAt M fs done b)).1 := by
+/-- one `advance_field` on a well-aligned header moves from a field of the first present word to the next one, or —
+    the last present word announcing no field — ends -/
+theorem advanceField_step {M : Meta} (hwf : M.wf) {F : Frame} (hF : F.ok M) {fs done rest : List (Nat × Bytes)} {b : Nat} {v : Bytes}
+    (hfs : fs = done ++ (b, v) :: rest) (hso : Sorted fs) (hsz : Sized M fs) (hin : rest = [] → F.inert M) :
+    PAt M F fs (done ++ [(b, v)]) rest (advanceField M (stAt M F fs done b)).1 := by
   obtain ⟨hb, hv⟩ := sized_mem hsz hfs
   have hso' : Sorted (done ++ (b, v) :: rest) := by rw [← hfs]; exact hso
   obtain ⟨hlo, hhi, hsr⟩ := sorted_split hso'
-  have h8 := le_encEnd M done 8
+  have h8 := le_encEnd M done F.base
+  have hbase : 8 ≤ F.base := by simp [Frame.base]
   have hnb : (b == M.max) = false := by simp; omega
-  have hshift : presentWord fs / 2 ^ b / 2 = presentWord fs / 2 ^ (b + 1) := by
+  have hshift : (presentWord fs ||| F.hb) / 2 ^ b / 2 = (presentWord fs ||| F.hb) / 2 ^ (b + 1) := by
     rw [Nat.div_div_eq_div_mul, Nat.pow_succ]
+  rw [advanceField_eq]
+  have hn : (stAt M F fs done b).null = false := rfl
+  have hbit : ((stAt M F fs done b).bit == M.max) = false := hnb
+  simp only [hn, hbit, Bool.false_or, Bool.false_eq_true, if_false]
   cases rest with
   | nil =>
-    -- last field: the present word is exhausted, there is no further namespace
-    have hadv : skipCurrentField M (stAt M fs done b)
-        = ((⟨canonL M fs, false, (stAt M fs done b).ptr + M.size b, M.max, presentWord fs / 2 ^ M.max, 0⟩ : Parser),
+    -- last field of the first present word
+    have hadv : skipCurrentField M (stAt M F fs done b)
+        = ((⟨layL M F fs, false, (stAt M F fs done b).ptr + M.size b, M.max, (presentWord fs ||| F.hb) / 2 ^ M.max, 0⟩ : Parser),
            false) := by
       unfold skipCurrentField
       simp only [stAt, hshift]
-      apply advanceToNextField_end M _ _ _ _ (by omega)
-      intro c hc _
-      rw [hfs]
+      apply advanceToNextField_end M _ _ _ _ _ (by omega)
+      intro c hc hcm
+      rw [hfs, W_testBit hF _ c hcm]
       exact clear_between hso' c (by omega) (fun f hf => by simp at hf)
-    have hns : advanceToNextNamespace
-        (⟨canonL M fs, false, (stAt M fs done b).ptr + M.size b, M.max, presentWord fs / 2 ^ M.max, 0⟩ : Parser)
-        = ((⟨canonL M fs, false, (stAt M fs done b).ptr + M.size b, M.max, read32 (canonL M fs) (4 * 0), 0⟩ : Parser),
-           false) := by
-      unfold advanceToNextNamespace
-      have hw : nsWalk ((canonL M fs).length / 4 + 1) (canonL M fs) 0 = 0 := by
-        unfold nsWalk
-        simp [ext_canonL hwf hsz]
-      simp [hw]
-    unfold advanceField
-    simp only [stAt, hnb, Bool.false_or, Bool.false_eq_true, if_false] at hadv ⊢
     simp only [hadv, Bool.false_eq_true, if_false]
-    simp only [stAt] at hns
-    simp only [hns, Bool.not_false, if_true]
-    exact ⟨rfl, rfl, rfl, rfl⟩
+    exact (nextNamespaceField_inert hwf hF (hin rfl) hsz _ _).2
   | cons x rest' =>
     obtain ⟨b', v'⟩ := x
     have hb' : b < b' := by have := hhi (b', v') (List.mem_cons_self ..); simpa using this
     have hfs2 : fs = (done ++ [(b, v)]) ++ (b', v') :: rest' := by rw [hfs]; simp
     obtain ⟨hbm', _⟩ := sized_mem hsz hfs2
     have hal' := (hwf.2 b' hbm').2
-    have hadv : skipCurrentField M (stAt M fs done b) = (stAt M fs (done ++ [(b, v)]) b', true) := by
+    have hadv : skipCurrentField M (stAt M F fs done b) = (stAt M F fs (done ++ [(b, v)]) b', true) := by
       unfold skipCurrentField
       simp only [stAt, hshift]
-      rw [advanceToNextField_to M _ _ _ (b + 1) b' (by omega) hbm']
+      rw [advanceToNextField_to M _ _ _ (b + 1) b' 0 (by omega) hbm']
       · simp only [alignBuffer_eq _ _ hal', encEnd_snoc, hv]
-        have hE : encEnd M done 8 + padTo (M.align b) (encEnd M done 8) - 4 + M.size b + 4
-            = encEnd M done 8 + padTo (M.align b) (encEnd M done 8) + M.size b := by omega
+        have hE : encEnd M done F.base + padTo (M.align b) (encEnd M done F.base) - 4 + M.size b + 4
+            = encEnd M done F.base + padTo (M.align b) (encEnd M done F.base) + M.size b := by omega
         rw [hE]
         congr 2
         omega
       · intro c hc hct
-        rw [hfs]
+        rw [hfs, W_testBit hF _ c (by omega)]
         apply clear_between hso' c (by omega)
         intro f hf
         rw [List.mem_cons] at hf
@@ -266,11 +285,8 @@ theorem advanceField_step {M : Meta} (hwf : M.wf) {fs done rest : List (Nat × B
         · have hso2 : Sorted ((done ++ [(b, v)]) ++ (b', v') :: rest') := by rw [← hfs2]; exact hso
           have := (sorted_split hso2).2.1 f hf
           simp at this; omega
-      · rw [hfs2]; exact set_at
-    unfold advanceField
-    have hn : (stAt M fs done b).null = false := rfl
-    have hbit : ((stAt M fs done b).bit == M.max) = false := hnb
-    simp only [hn, hbit, Bool.false_or, Bool.false_eq_true, if_false, hadv, if_true]
+      · rw [hfs2, W_testBit hF _ b' hbm']; exact set_at
+    simp only [hadv, if_true]
     rfl
 
 end Tins.RT
